@@ -15,8 +15,9 @@ PROPS = {
         'kani_quick': [],
         'kani_thorough': [],
         'trusted': [
-            'ChainIndex::new: max_height == min(end, tip) and the trimmed index holds start..=max_height '
-            '(HashMap iteration / retain closure: outside both verifiers) -- ASSUMED as precondition pre:index_holds_the_range',
+            'ChainIndex::new is under contract (unit chainindex: max_height == min(end, tip), trimmed index == start-1..=max_height, per-file maxima) '
+            'through idioms I17 (HashMap iteration = enumeration of all entries in an unspecified order), I18 (keys().max()), I19 (retain by key range); '
+            'lemma_driver_precondition derives the driver precondition for an index without holes (input assumption: the active chain has a record at every height)',
             'ChainStorage::get_block contract (contracts/get_block_driver.inc) -- proved on the real body in unit chain',
             'Callback trait contract: each on_block appends exactly its height to the ghost log (definition of "delivered")',
             'print_progress only touches self.stats (external_body)',
@@ -96,24 +97,24 @@ PROPS = {
     },
     'C09': {
         'native': ['c09_'],
-        'units': ['chain', 'driver'],
+        'units': ['chain', 'driver', 'chainindex'],
         'kani_quick': [],
         'kani_thorough': ['utils_merkle_root_1_to_3', 'utils_merkle_root_4_5'],
         'trusted': [
             'Block::compute_merkle_root == merkle_spec(txids in block order) -- iterator adapters, outside Verus; utils::merkle_root is checked by bounded Kani harnesses (lane K), never counted as proved',
             'SHA-256d collision resistance (soundness clause "any bit flip fails") is a cryptographic assumption, not a contract',
-            'ChainIndex::new retains the record of height start-1 (precondition pre:predecessor_record_retained -- ASSUMED)',
+            'ChainIndex::new retains the record of height start-1: proved in unit chainindex (C02,C09:trimmed_index_keeps_start_minus_1_to_max_height)',
             'genesis hash constants per coin: lane K table check',
             'process::exit(1) on Err happens before any further on_block/on_complete (unit driver: C02:err_means_no_completion)',
         ],
     },
     'C17': {
         'native': ['c17_'],
-        'units': ['chain'],
+        'units': ['chain', 'chainindex'],
         'kani_quick': [],
         'kani_thorough': [],
         'trusted': [
-            'max_height_blk_index[f] == max{h : index[h].blk_index == f} -- computed by a HashMap iteration in ChainIndex::new, outside both verifiers: ASSUMED (hypotheses of lemma_open_files_bounded_step)',
+            'max_height_blk_index[f] == max{h : index[h].blk_index == f}: proved for ChainIndex::new in unit chainindex (clause C17:per_file_maximum_heights) under idiom I17 (HashMap iteration yields every entry once)',
             'OS descriptor accounting: a dropped XorReader<BufReader<File>> closes its descriptor (std)',
             'std HashMap::get_mut full-view frame (prelude/hashmap.inc)',
         ],
